@@ -82,6 +82,15 @@ static int sweep_shape(const vop *o, int r, int w, int l, oshape *out) {
   if (f == sh_concat_new) { out->d[0][0] = r; out->d[0][1] = w; out->d[1][0] = r; out->d[1][1] = l; return 1; }
   if (f == sh_stack) { out->d[0][0] = r + 2; out->d[0][1] = w; out->d[1][0] = r; out->d[1][1] = w; out->d[2][0] = 2; out->d[2][1] = w; return 1; }
   if (f == sh_stack_new) { out->d[0][0] = r; out->d[0][1] = w; out->d[1][0] = 2; out->d[1][1] = w; return 1; }
+  /* elimination-type entry points: one r x w operand (parameter: full / k / cutoff alternate with the width) */
+  if (f == sh_ech || f == sh_ple || f == sh_kernel || f == sh_perm) { out->d[0][0] = r; out->d[0][1] = w; out->p[0] = (f == sh_ech) ? (w & 1) : 0; return 1; }
+  if (f == sh_ech_k) { out->d[0][0] = r; out->d[0][1] = w; out->p[0] = w & 1; out->p[1] = (w >> 1) % 7; return 1; }
+  if (f == sh_ple_k) { out->d[0][0] = r; out->d[0][1] = w; out->p[0] = (w % 5 == 0) ? 0 : (w % 5) + 1; return 1; }
+  /* triangular solves: T is r2 x r2 with r2 = l (9 or 70), B has w columns (left) resp. w rows... the swept dimension is the one
+     that is NOT tied to T: columns of B for the left variants, and T itself (w x w) with B r x w for the right variants */
+  if (f == sh_trsm_l) { out->d[0][0] = l; out->d[0][1] = l; out->d[1][0] = l; out->d[1][1] = w; return 1; }
+  if (f == sh_trsm_r) { out->d[0][0] = w; out->d[0][1] = w; out->d[1][0] = r; out->d[1][1] = w; return 1; }
+  if (f == sh_trtri || f == sh_inv_new) { out->d[0][0] = w; out->d[0][1] = w; out->p[0] = (w % 4 == 0) ? 3 : 0; return 1; }
   return 0;
 }
 static void mode_sweep(void) {
@@ -93,6 +102,8 @@ static void mode_sweep(void) {
     for (int ri = 0; ri < (vx_tier ? 4 : 2); ri++) for (int wi = 0; wi < 136; wi++) {
       int w = wi < 130 ? wi + 1 : (wi == 130 ? 191 : wi == 131 ? 192 : wi == 132 ? 193 : wi == 133 ? 256 : wi == 134 ? 257 : 320), r = RS[ri], l = (wi & 1) ? 70 : 9;
       if (o->shapes == sh_mul_k || o->shapes == sh_mul || o->shapes == sh_mul_new) { if (!vx_tier && (w % 64 > 2 && w % 64 < 31 && w % 64 != 16) ) continue; }
+      if (o->shapes == sh_trsm_r || o->shapes == sh_trtri || o->shapes == sh_inv_new) { if (w > 193 || (!vx_tier && (w % 64 > 3 && w % 64 < 61 && w % 16))) continue; if (ri > 0 && o->shapes != sh_trsm_r) continue; }
+      if (o->shapes == sh_ech || o->shapes == sh_ech_k || o->shapes == sh_ple || o->shapes == sh_ple_k || o->shapes == sh_kernel || o->shapes == sh_trsm_l) { if (!vx_tier && w > 130 && w != 192 && w != 257) continue; }
       sweep_shape(o, r, w, l, &sh);
       vx_group();
       baseline bl; memset(&bl, 0, sizeof bl);
